@@ -43,6 +43,29 @@ theorem refConEtaPhi_generated (eta phi psi theta : α) (N : M3 α) :
 theorem refConChiPhi_generated (chi phi psi theta : α) (N : M3 α) :
     Gen.calc_sample_ref_con_chi_phi chi phi psi theta N = Solver.refConChiPhi chi phi psi theta N := rfl
 
+/-! the single-sample branches that do not need `catchAssert` and three of the detector + two-sample branches (`calc_sample.py`), whole bodies -/
+
+theorem sampleConPhi_generated (phi : α) (Nl N : M3 α) : Gen.calc_sample_con_phi phi Nl N = Solver.sampleConPhi phi Nl N := rfl
+
+theorem sampleConChi_generated (chi : α) (Nl N : M3 α) : Gen.calc_sample_con_chi chi Nl N = Solver.sampleConChi chi Nl N := rfl
+
+theorem sampleConEta_generated (eta : α) (Nl N : M3 α) : Gen.calc_sample_con_eta eta Nl N = Solver.sampleConEta eta Nl N := rfl
+
+theorem sampleConMuChi_generated (mu chi qaz theta : α) (N : M3 α) :
+    Gen.calc_sample_con_mu_chi mu chi qaz theta N = Solver.sampleConMuChi mu chi qaz theta N := rfl
+
+theorem sampleConEtaPhi_generated (eta phi qaz theta : α) (N : M3 α) :
+    Gen.calc_sample_con_eta_phi eta phi qaz theta N = Solver.sampleConEtaPhi eta phi qaz theta N := rfl
+
+theorem sampleConEtaChi_generated (eta chi qaz theta : α) (N : M3 α) :
+    Gen.calc_sample_con_eta_chi eta chi qaz theta N = Solver.sampleConEtaChi eta chi qaz theta N := rfl
+
+theorem sampleConMuPhi_generated (mu phi qaz theta : α) (N : M3 α) :
+    Gen.calc_sample_con_mu_phi mu phi qaz theta N = Solver.sampleConMuPhi mu phi qaz theta N := rfl
+
+theorem sampleConMuEta_generated (mu eta qaz theta : α) (N : M3 α) :
+    Gen.calc_sample_con_mu_eta mu eta qaz theta N = Solver.sampleConMuEta mu eta qaz theta N := rfl
+
 /-! the numeric primitives everything else is built from (`util.py`): the tolerance constant, `bound`, `sign` -/
 
 theorem small_generated : (Gen.small_const : α) = Scalar.SMALL := rfl
